@@ -233,7 +233,10 @@ def run_impl(cases, backend='s1', workdir=None, flags=(), tag='cases'):
         # an expansion that never returns is a violation like one that dies: the watchdog kills the process and the culprit is found
         # the same way (the case with a RAW line and no OUT line)
         limit = max(240, int(0.05 * n))
-        pr = subprocess.Popen([HARNESS[backend], path] + list(flags), stdout=subprocess.PIPE, stderr=subprocess.PIPE)
+        def limits():
+            import resource
+            resource.setrlimit(resource.RLIMIT_AS, (6 << 30, 6 << 30))      # an expansion that allocates without bound dies instead of taking the machine down
+        pr = subprocess.Popen([HARNESS[backend], path] + list(flags), stdout=subprocess.PIPE, stderr=subprocess.PIPE, preexec_fn=limits)
         try:
             so, se = pr.communicate(timeout=limit)
             return pr.returncode, so, se
